@@ -151,6 +151,10 @@ def run(ctx):
     for case, exhaustive in files:
         raw = refenc.v02(case)
         F = case["body"]["frames"]
+        # files that differ from this one in a few header bytes only: other dimensions, other version (a v0.1 recording with the same skeleton)
+        near_dims = refenc.v02({"header": dict(case["header"], width=case["header"]["width"] + 1, depth=7), "body": case["body"]})
+        v01body = dict(pc.gen_body(rng, case["header"], frames=2, people=1), fps={"int": 25})
+        near_version = refenc.v01({"header": case["header"], "body": v01body})
         full = impl_read(raw, "bytes", {}, None)
         assert full[0] == "ok", full
         hl = header_len(case)
@@ -160,7 +164,7 @@ def run(ctx):
         ctx.count("file>prefetch" if len(raw) > 10340 else "file<=prefetch")
         for w in windows_for(rng, F, b["fps"]["f32"], exhaustive and (F <= 4 or ctx.thorough())):
             for reader in ("bytes", "stream"):
-                caches = [("empty", None), ("same", raw), ("shorter", short_foreign), ("longer", long_foreign)]
+                caches = [("empty", None), ("same", raw), ("shorter", short_foreign), ("longer", long_foreign), ("near_dims", near_dims), ("near_version", near_version)]
                 if not exhaustive or reader == "bytes":
                     caches = [caches[0], rng.choice(caches[1:])]
                 for cname, cache in caches:
